@@ -44,6 +44,10 @@ CLAIMS = {
     text="Model: LiquidInterp's sink fails at every logical write k of every corpus program; TLC checks accepted-bytes-are-a-prefix of the fault-free run, error-iff-failed, no write after failure and stream = buffered for k = 0. Implementation: the harness drives the real render_to with a sink wrapper failing at every physical call k (whole-buffer and byte-at-a-time modes) and records every call; TLC validates the recorded trace against LiquidSink via Trace_Sink.tla (every event must be an enabled action; prefix invariant evaluated at every step; acceptance by postcondition).",
     note="bounded corpus (267 programs quick / ~3000 thorough, thinned to 1500 for tracing); trusted: the sink wrapper's logging; fault-free output equality with the specification is established by the replay stage.",
     tech=TECH_AB, ref="DESIGN.md 7 C10"),
+ "C11": dict(
+    text="LiquidCompare defines Liquid equality and ordering over the whole value universe with exact arithmetic (LiquidBig integers, doubles as rationals or inf/nan, code-point strings, date-times as instant + offset, objects as order-free functions); TLC checks reflexivity (NaN excepted), symmetry, </> duality, <=/>= consistency, equal-never-strictly-ordered, integer/float equality up to 2^53 and chronological order across offsets on every ordered pair of the pool; every pair is then evaluated on the real code through ValueViewCmp, ValueCow (owned, borrowed, mixed) and through if / case / contains / uniq templates, with each value built twice independently, in two passes of separate processes, and compared with the specification's answer.",
+    note="bounded: 66-value pool, all ordered pairs (triples are not enumerated); one repaired defect (hash-order dependent object ordering).",
+    tech=TECH_A, ref="DESIGN.md 7 C11"),
  "C13": dict(
     text="LiquidFiltersStr defines every string filter as a recursive TLA+ function on sequences of Unicode scalar values (grapheme clusters for truncate) and chains as composition; TLC enumerates the bounded input space, evaluates the documented function for every case and checks the algebraic laws of the property (split/join identity, strip = lstrip o rstrip, truncate bound, slice contiguity, size in characters, capitalize touches only the first character, replace_first is a prefix of replace, default) as invariants; every case is replayed through {{ in | filter: args | __dump }} on the real parser and compared structurally.",
     note="bounded: strings <= 3 (quick) / 4 (thorough) over a 10-character adversarial alphabet, arguments <= 1 / 2; two recorded findings (truncate measures in bytes) are matched by filter name and non-ASCII input shape; two repaired defects (size, slice).",
